@@ -27,6 +27,7 @@ func propC11() *Property {
 			{ID: "C11.R8", Title: "source k of the feed is input k (ties go to the source listed first)", Floor: 1, Run: c11R8},
 			{ID: "C11.R9", Title: "the order of the sources is never permuted", Floor: 1, Run: c11R9},
 			{ID: "C11.R10", Title: "a source that answers short is exhausted: a page names itself as continuation only when it delivered the full amount (same instances as C10.R4)", Floor: 3, Run: c10R4},
+			{ID: "C11.R11", Title: "the feed ends only when a selection found every buffer empty", Floor: 1, Run: c11R11},
 			{ID: "C11.R7", Title: "the selection loop: a head is passed over only if it is empty or not newer than the best so far", Floor: 3, Run: c11R7},
 		},
 	}
@@ -752,4 +753,38 @@ func c11R8(c *Ctx) {
 	}
 	c.check(nStores >= 1, name+"/source-slots", P.Pos(fn.Pos()), name, fmt.Sprintf("%d stores of a source's page", nStores),
 		"NewSplicer no longer stores the pages of its sources by input index: the order of the sources is not that of the inputs")
+}
+
+// c11R11: Splicer.Harvest hands back a nil continuation — "all sources are
+// exhausted" — only on a path that has just seen microharvest return nil, i.e.
+// after replenishing, no source had an item left in its buffer. Any other
+// reason (every page pointer nil while buffers still hold items, a count, a
+// flag) ends the feed before its sources are exhausted (seed C11-1r8).
+func c11R11(c *Ctx) {
+	P := c.P
+	h := P.Method("servitor/splicer", "Splicer", "Harvest")
+	mh := P.Method("servitor/splicer", "Splicer", "microharvest")
+	hname := FuncName(h)
+	n := 0
+	for _, b := range h.Blocks {
+		ret, ok := b.Instrs[len(b.Instrs)-1].(*ssa.Return)
+		if !ok || len(ret.Results) < 2 || !isNilConst(ret.Results[1]) {
+			continue
+		}
+		n++
+		okEnd := false
+		for _, f := range factsOf(h).At(b) {
+			cmp, ok := f.Cmp()
+			if !ok || cmp.Op != token.EQL || !isNilConst(cmp.Y) {
+				continue
+			}
+			if call, ok := unwrapLoad(cmp.X).(*ssa.Call); ok && call.Call.StaticCallee() == mh {
+				okEnd = true
+			}
+		}
+		c.check(okEnd, hname+"/ends-on-empty-selection", P.InstrPos(ret), hname, "nil continuation only where microharvest has just returned nil", "Harvest reports the feed as finished (nil continuation) on a path where no selection has come back empty: items that are still buffered, or still to be fetched, are never delivered")
+	}
+	if n == 0 {
+		c.note(hname+"/ends-on-empty-selection", P.Pos(h.Pos()), hname, "Harvest never returns a nil continuation")
+	}
 }
